@@ -113,6 +113,9 @@ def c09(ctx):
     _g(ctx, verify.run, kinds=['set', 'oc'], opmap=False, simtable=False)
     _g(ctx, shape.run, builders=True, cross=False, ids=False)
     _g(ctx, split.run, table=False)
+    # the empty pairs are emitted from inside the probe loop: a right row the loop steps over gets none
+    _g(ctx, cand.run, slices=False, unique=False, provenance=False, window=False, prune=False, consume=False, early=False,
+       collect=False)
 
 
 def c10(ctx):
